@@ -140,6 +140,7 @@ type scase struct {
 	jobs     []job
 	descr    string
 	witness  string
+	nticks   int // ticks: number of periods, one request each
 	// follow only
 	fol *followIn
 }
@@ -149,6 +150,8 @@ func (c *scase) label() string {
 	switch c.kind {
 	case "sync", "run":
 		s += fmt.Sprintf(" upTo=%d", c.upTo)
+	case "ticks":
+		s += fmt.Sprintf(" upTo=%d ticks=%d(one request per period)", c.upTo, c.nticks)
 	case "resync":
 		s += fmt.Sprintf(" from=%d to=%d", c.from, c.to)
 	case "check":
@@ -486,6 +489,35 @@ func (g *gen) build(tier string) {
 		}
 		atts = append(atts, []*peerSpec{w.cut(1, eClose), w.honest()})
 		g.add(&scase{kind: "run", w: w, bk: bkMem, sk: skAppend, head: head, upTo: upTo, attempts: atts, descr: "renewal"})
+	}
+	// ---- Run with its clock: one request per period while the node is behind ----
+	for i := 0; i < 10*scale; i++ {
+		w := g.worlds[i%len(g.worlds)]
+		head := uint64(g.rng.Intn(chainLen - 3))
+		upTo := head + 2 + uint64(g.rng.Intn(int(chainLen-head-1)))
+		k := 1 + i%2
+		var atts [][]*peerSpec
+		for j := 0; j < k; j++ {
+			var a []*peerSpec
+			switch (i + j) % 4 {
+			case 0: // opens the stream and stays silent
+				a = []*peerSpec{w.cut(0, eStall), w.honest()}
+			case 1: // sends something, then falls silent
+				a = []*peerSpec{w.cut(1, eClose), w.cut(1+g.rng.Intn(2), eStall)}
+			case 2: // a failing attempt: the very next request starts another one
+				a = []*peerSpec{unreachableSpec(), w.liar("badsig", g.rng.Intn(2), eClose)}
+			default:
+				a = []*peerSpec{w.liar(lieKinds[g.rng.Intn(len(lieKinds))], 1, eStall), selfSpec()}
+			}
+			atts = append(atts, a)
+		}
+		atts = append(atts, []*peerSpec{w.cut(1, eClose), w.honest()})
+		wit := ""
+		if i < 2 {
+			wit = "silent-stream-must-be-renewed"
+		}
+		g.add(&scase{kind: "ticks", w: w, bk: bkMem, sk: skAppend, head: head, upTo: upTo,
+			attempts: padAttempts(atts), nticks: 3*k + 4 + g.rng.Intn(2), witness: wit, descr: "request-per-period"})
 	}
 	g.buildFollow(tier)
 }
